@@ -55,7 +55,7 @@ def impl_only_case(ctx, ops):
     import os
     import subprocess
     p = subprocess.run([os.path.join(K.BIN, "hx"), "run", "C01"], input="\n".join(ops) + "\n", stdout=subprocess.PIPE,
-                       stderr=subprocess.PIPE, text=True, timeout=300)
+                       stderr=subprocess.PIPE, text=True, timeout=1800)
     impl = p.stdout.split("\n")[:-1]
     return impl, S.history_oracle(ops, impl)
 
@@ -72,7 +72,7 @@ def run(ctx):
     if K.build_hx(ctx) and K.build_drv(ctx):
         args = S.drv_args(facts)
         try:
-            c = K.correspondence(ctx, "C01", args, timeout=900)
+            c = K.correspondence(ctx, "C01", args, timeout=3000)
         except Exception as e:  # e.g. the real reader hangs on what a mutated writer produced
             c = K.Corr()
             c.err = "harness did not finish: %r" % (e,)
@@ -117,7 +117,8 @@ def run(ctx):
     ctx.cov["large_live_set_compaction_case"] = {"ops": BIG_CASE, "oracle_violations": len(big_bad)}
     if ctx.thorough:
         ok, out = K.leanchecker(ctx, ["Hv.Props.C01", "Hv.Storage.WriterLemmas", "Hv.Storage.ReaderLemmas", "Hv.Storage.FormatLemmas",
-                                      "Hv.Storage.SpecLemmas"])
+                                      "Hv.Storage.SpecLemmas", "Hv.Storage.OverflowLemmas", "Hv.Storage.CompactLemmas",
+                                      "Hv.Storage.ChronWrite", "Hv.Storage.BlockAssumptions", "Hv.Storage.BlockView", "Hv.Storage.Bytes"])
         ctx.cov["leanchecker"] = "ok" if ok else out[-500:]
         if not ok:
             ctx.violation("leanchecker rejected the compiled proofs", {"log": out[-2000:]}, tag="leanchecker", found_input=False)
